@@ -112,6 +112,90 @@ def run_diff(kind: str, cmode: int, a0: int, b0: int, s0: int, i0: int, d1: int,
     return ok, witness
 
 
+class _Nested:
+    """class K with an invariant; ``outer`` calls ``inner`` on the same instance; rendered with def / async def."""
+
+    def __init__(self, is_async: bool) -> None:
+        import icontract
+        from vfw.hlib import Suspend
+        self.log = []  # type: List[Any]
+        self.truth = []  # type: List[Any]
+        self.k = 0
+        w = self
+
+        def inv(self: Any) -> Any:
+            if w.k >= len(w.truth):
+                return True
+            v = w.truth[w.k]
+            w.k += 1
+            w.log.append(("inv",))
+            return v
+
+        if is_async:
+            async def inner(self: Any, d: Any) -> Any:
+                w.log.append(("body", "inner"))
+                await Suspend()
+                self.total = self.total + d
+                return self.total
+
+            async def outer(self: Any, d: Any) -> Any:
+                w.log.append(("body", "outer"))
+                r = await self.inner(d)
+                w.log.append(("inner-returned", r == self.total))
+                return ("outer", r)
+        else:
+            def inner(self: Any, d: Any) -> Any:  # type: ignore
+                w.log.append(("body", "inner"))
+                self.total = self.total + d
+                return self.total
+
+            def outer(self: Any, d: Any) -> Any:  # type: ignore
+                w.log.append(("body", "outer"))
+                r = self.inner(d)
+                w.log.append(("inner-returned", r == self.total))
+                return ("outer", r)
+
+        def __init__(self: Any) -> None:
+            self.total = 0
+        cls = type("K", (), {"__init__": __init__, "inner": inner, "outer": outer})
+        self.cls = icontract.invariant(inv, error=lambda: Tag("inv"))(cls)
+
+
+_NESTED = {}  # type: Dict[bool, _Nested]
+
+
+def run_nested(d: int, t0: bool, t1: bool, t2: bool, t3: bool) -> Tuple[bool, bool]:
+    """outer() -> inner() on the same instance: the async rendering must give the same trace and outcome as the sync one."""
+    from vfw.hlib import drive, untraced
+    res = []
+    for is_async in (False, True):
+        with untraced():
+            w = _NESTED.get(is_async)
+            if w is None:
+                w = _Nested(is_async)
+                _NESTED[is_async] = w
+        w.truth, w.k = [], 0
+        inst = fresh(w.cls)
+        del w.log[:]
+        w.truth, w.k = [t0, t1, t2, t3], 0
+
+        def call() -> Any:
+            r = inst.outer(d)
+            return drive(r) if is_async else r
+        try:
+            out = ("ret", fresh(call))  # type: Any
+        except Tag as err:
+            out = ("violation", err.label)
+        res.append((list(w.log), out, inst.total))
+    ok = res[0] == res[1]
+    # and the inner body really ran, returning its value
+    if res[0][1][0] == "ret" and (("body", "inner") not in res[1][0] or ("inner-returned", True) not in res[1][0]):
+        ok = False
+    witness = res[0][1][0] == "ret"
+    note(("nested", tuple(res[1][0]), res[1][1][0]), witness)
+    return ok, witness
+
+
 ALL = ["cmode", "a0", "b0", "s0", "i0", "d1", "a1", "b1", "br", "p0", "p1", "p2", "p3", "q0", "q1", "q2", "v0", "w0"]
 
 
@@ -147,4 +231,10 @@ def harnesses(tier: str) -> List[H]:
                                             ", invariant 0..1" if kind == "method" else "",
                                             ["absent", "not overriding", "overriding with %s own preconditions" % a1][d1]),
                                  family_size=18 * (2 if kind == "method" else 1) * (1 if d1 < 2 else 2) * 2))
+    NP = ["d", "t0", "t1", "t2", "t3"]
+    out.append(H("nested_methods", bind(run_nested, (), NP, {}, NP), [I("d", -4, 12), B("t0"), B("t1"), B("t2"), B("t3")],
+                 tiers=(tier,), timeout=300,
+                 family="class with an invariant; public method outer() calls public method inner() of the same instance "
+                        "(a re-entrant, unchecked call); def vs async def rendering; invariant truth sequence symbolic",
+                 family_size=1))
     return out
